@@ -109,6 +109,12 @@ def parse(items, i=0, stop=()):
         if m and not re.search(r"&&|\|\|", re.sub(r'"[^"]*"|\'[^\']*\'|`[^`]*`', "", ln)):
             body.append(Node("assign", name=m.group(1), value=m.group(2)))
             continue
+        m = re.match(r"^(?:function\s+)?(\w+)\s*(?:\(\))?\s*\{$", ln)
+        if m and (ln.startswith("function ") or "()" in ln):
+            b, i = parse(items, i, stop=("}",))
+            i += 1
+            body.append(Node("function", name=m.group(1), body=b))
+            continue
         m = re.match(r"^while (.*); do$", ln)
         if m:
             b, i = parse(items, i, stop=("done",))
@@ -124,7 +130,8 @@ def parse(items, i=0, stop=()):
         if re.match(r"^(for|while|until|case|function)\b", ln) or ln.endswith("{") or "&" in ln.replace("2>&1", "").replace("&&", ""):
             raise ShUnsupported(f"construct outside subset: {ln}")
         if "&&" in ln.replace("2>&1", "") or "||" in ln:
-            if any(ch in ln for ch in "()`") or "[[" in ln or re.search(r"(^|\s)\[\s", ln):
+            bare = re.sub(r'"[^"]*"|\'[^\']*\'', '""', ln)           # quoted text is data, not syntax
+            if any(ch in bare for ch in "()`") or "[[" in bare or re.search(r"(^|\s)\[\s", bare):
                 raise ShUnsupported(f"construct outside subset: {ln}")
             body.append(Node("andor", text=ln))
             continue
@@ -240,6 +247,7 @@ class Engine:
         self.solver = z3.Solver()
         self.solver.set("timeout", 5000)
         self.facts = {}      # ('exists'|'isdir', key) -> z3 Bool
+        self.functions = {}  # shell functions defined so far: name -> body
         self.assumptions = set()
         self.max_paths = 1500
         self.truncated = False
@@ -641,6 +649,9 @@ class Engine:
             for q in done:
                 q.vars.pop("__break", None)
             return paths + done
+        if st.kind == "function":
+            self.functions[st.name] = st.body
+            return [p]
         if st.kind == "while":
             # bounded unrolling: a path on which the condition can still hold after WHILE_UNROLL iterations is dropped and the
             # run is marked truncated (reported inconclusive, never passed)
@@ -704,6 +715,24 @@ class Engine:
         if " | " in t and not t.startswith("echo"):
             return self.pipeline(p, [c.strip() for c in t.split(" | ")])
         w = t.split()
+        if t.startswith("{ ") and t.endswith("}"):
+            # brace group on one line: its commands in sequence (same shell, same errexit setting)
+            inner = [c.strip() for c in re.split(r';(?=(?:[^"]*"[^"]*")*[^"]*$)', t[2:-1].strip().rstrip(";")) if c.strip()]
+            paths = [p]
+            for c in inner:
+                nxt = []
+                for q in paths:
+                    nxt += [q] if q.exit is not None else self.simple(q, c)
+                paths = nxt
+            return paths
+        if w and w[0] in self.functions:
+            # a shell function: its body runs in the caller's shell; errexit is whatever the calling context says (it is
+            # suspended when the call is a non-final member of an && / || list or a condition - bash ignores set -e there)
+            if len(w) > 1:
+                raise ShUnsupported(f"function call with arguments: {t}")
+            return self.run_block([p], self.functions[w[0]])
+        if w and w[0] == "return":
+            raise ShUnsupported("return inside a function")
         if t in ("set -e",):
             p.errexit = True
             return [p]
